@@ -18,6 +18,11 @@ func (s *Server) backgroundExpiring(wg *sync.WaitGroup) {
 	s.loopUntilServerStops(bgExpireDelay, func() {
 		s.mu.LockLowPriority()
 		defer s.mu.Unlock()
+		if s.config.followHost() != "" {
+			// A follower applies the expirations logged by its leader. Expiring
+			// on its own makes its dataset and log diverge from the leader's.
+			return
+		}
 		now := time.Now()
 		s.backgroundExpireObjects(now)
 		s.backgroundExpireHooks(now)
